@@ -20,7 +20,7 @@ import vlib          # noqa
 import fuzzlib as F  # noqa
 
 GEN = os.path.join(ROOT, "work", "C29", "gen")
-SLOW_MS = 4000
+SLOW_MS = 1000
 MAX_HANGS = 24
 # classes whose panic is not a function of the input alone: matched by panic site (see checks/c29.py site_class)
 NONDET = {"panic:hash_join-index-out-of-bounds-the-len-is-n-but-the-index-i": {
@@ -123,7 +123,8 @@ def freeze():
     for src, cs in bysrc.items():
         F.write_gz(os.path.join(F.CORPUS, f"{src}.ndjson.gz"), cs)
     F.write_gz(os.path.join(F.CORPUS, "seeds.ndjson.gz"), F.all_seeds())
-    F.write_hashes(F.load_corpus())
+    kept = {c["h"] for c in keep}
+    F.write_hashes(keep, [c["h"] for c in cands if c["h"] not in kept])
     os.makedirs(os.path.dirname(F.FINDINGS), exist_ok=True)
     json.dump({"comment": "C29: inputs (hash of the macro-form statement text) on which the UNCHANGED tree panics, aborts or hangs, "
                           "grouped by class; generated by lib/fuzzgen.py freeze; ms = run time observed at freeze time (used only to "
